@@ -44,8 +44,12 @@ KF_Balance(st, o, r, pc) == IF st \in {"badend", "underflow"} /\ NoDefaultChain(
    reports it as a hang.  Not a panic, but the step does not return in useful time. *)
 \* C07-huge-span-materialised: a cast (~#) of a slice whose range starts at -2147483647 or ends at 2147483647 does not return
 HugeSpan(t) == t.k = "slice" /\ (t.lo = <<"--", "2147483647">> \/ t.hi = <<"2147483647">>) /\ t.f[1] = "~#"
+\* the same finding in the generated program corpus (prefix-notation ASTs): a cast of a range that ends at 2147483647
+HugeSpanAst(a) == \E i, j, k \in DOMAIN a : a[i] = "cast" /\ a[j] \in {"rng", "rngs", "rnge", "rngx"} /\ a[k] = "nmax"
 KF_C07(o, r) ==
-  IF "outcome" \in DOMAIN o /\ o.outcome = "hang" /\ "input_case" \in DOMAIN o /\ "tag" \in DOMAIN o.input_case /\ HugeSpan(o.input_case.tag)
+  IF "outcome" \in DOMAIN o /\ o.outcome = "hang" /\ "input_case" \in DOMAIN o
+     /\ \/ ("tag" \in DOMAIN o.input_case /\ HugeSpan(o.input_case.tag))
+        \/ ("ast" \in DOMAIN o.input_case /\ HugeSpanAst(o.input_case.ast))
   THEN "C07-huge-span-materialised" ELSE "NEW"
 KF_C08(o, run, why) == "NEW"
 ==============================================================================
